@@ -43,6 +43,7 @@ type Ctx struct {
 	funcs  map[string]string // uninterpreted function declarations: name -> "(args) ret"
 	forder []string
 	liftDepth int
+	seedSmall bool // ground instantiation seeds small integer literals (model extraction)
 }
 
 func NewCtx(bv bool) *Ctx {
